@@ -349,6 +349,8 @@ class Normalizer:
                     pass
             if fn in ("tuple", "list") and len(e.args) == 1 and not e.keywords:
                 return self.key(e.args[0])
+            if fn in ("frozenset", "set") and len(e.args) == 1 and isinstance(e.args[0], (ast.Set, ast.List, ast.Tuple)):
+                return "{" + ", ".join(sorted(self.key(x) for x in e.args[0].elts)) + "}"
             args = [self.key(a) for a in e.args]
             args += [f"{k.arg}={self.key(k.value)}" for k in sorted(e.keywords, key=lambda k: k.arg or "")]
             return f"{fn}({', '.join(args)})"
@@ -731,6 +733,19 @@ def bool_key(g) -> str:
     if g[0] == "not":
         return f"not {bool_key(g[1])}"
     return "(" + f" {g[0]} ".join(sorted(bool_key(x) for x in g[1])) + ")"
+
+
+def literals(g) -> set:
+    """Literals that certainly hold when the (conjunctive) guard holds: 'atom' / 'not atom'."""
+    g = simplify(g)
+    out = set()
+    items = g[1] if g[0] == "and" else [g]
+    for x in items:
+        if x[0] == "atom":
+            out.add(x[1])
+        elif x[0] == "not" and x[1][0] == "atom":
+            out.add("not " + x[1][1])
+    return out
 
 
 def A(key: str):
